@@ -57,8 +57,14 @@ func (r *jsonResponder) respond(ctx context.Context, w http.ResponseWriter, req 
 	}
 
 	// Set status code and encode response
+	// Encode first: once the 200 is written a result that cannot be encoded
+	// could no longer be reported to the client.
+	data, err := json.Marshal(resp)
+	if err != nil {
+		return err
+	}
 	w.WriteHeader(http.StatusOK)
-	if err := json.NewEncoder(w).Encode(resp); err != nil {
+	if _, err := w.Write(append(data, '\n')); err != nil {
 		return err
 	}
 
